@@ -237,6 +237,90 @@ def run(F, rep):
                         todo.append(_sd20(ge, x['d']))
         rep.check(not bad_, 'C20.G3', 'dependency-decision|%s' % render(c)[:40], ge.where(c), 'the generation of a dependency depends on the dependent equation itself: `%s`' % (bad_[0] if bad_ else ''), 'decided from the dependency')
 
+    # S1: the profile strings that exist in two versions (selected by a bool / two bools) are read and written through the same selection
+    rep.rule('C20.S1', 'every GeneratorProfile string that exists in several versions (for differential / algebraic models, with / without external variables) is written by its setter into the very member its getter returns '
+                       'for the same selector values: decided by evaluating getter and setter for every combination of their bool parameters. A setter with the two slots the wrong way round customises the callback call of the '
+                       'other kind of model: ODE code keeps a call that no longer matches the customised typedef')
+    import itertools as _it20
+
+    def _sel_member(g_, env, want):
+        """the member of the profile read (want='ret') or written (want='set') by g_ when its bool parameters have the values env"""
+        def truth(e):
+            while e.get('k') in ('Paren', 'Cast') and len(e.get('c', [])) == 1:
+                e = e['c'][0]
+            if e.get('k') == 'Ref' and e.get('dk') == 'parm' and e.get('n') in env:
+                return env[e['n']]
+            if e.get('k') == 'Un' and e.get('op') == '!':
+                v = truth(e['c'][0])
+                return None if v is None else (not v)
+            if e.get('k') == 'Bin' and e.get('op') in ('&&', '||'):
+                a, b = truth(e['c'][0]), truth(e['c'][1])
+                if a is None or b is None:
+                    return None
+                return (a and b) if e['op'] == '&&' else (a or b)
+            return None
+
+        def member_of(e):
+            while e is not None and e.get('k') in ('Paren', 'Cast', 'Temp', 'Bind', 'Construct') and len(e.get('c', [])) == 1:
+                e = e['c'][0]
+            if e is None:
+                return None
+            if e.get('k') == 'Cond' and len(e.get('c', [])) == 3:
+                v = truth(e['c'][0])
+                return None if v is None else member_of(e['c'][1] if v else e['c'][2])
+            if e.get('k') == 'Member' and e.get('field'):
+                return e.get('n')
+            return None
+
+        def run_(s_):
+            k_ = s_.get('k')
+            if k_ == 'Compound':
+                for c_ in s_.get('c', []):
+                    r_ = run_(c_)
+                    if r_ is not None:
+                        return r_
+                return None
+            if k_ == 'If':
+                v = truth(role(s_, 'cond'))
+                if v is None:
+                    return ('?',)
+                br = role(s_, 'then') if v else role(s_, 'else')
+                return run_(br) if br is not None else None
+            if k_ == 'Return' and want == 'ret' and s_.get('c'):
+                return ('m', member_of(s_['c'][0]))
+            if want == 'set' and ((k_ == 'Call' and s_.get('opc') == '=') or (k_ == 'Bin' and s_.get('op') == '=')) and s_.get('c'):
+                return ('m', member_of(s_['c'][0]))
+            return None
+        r_ = run_(g_.body) if g_.body is not None else None
+        return r_[1] if r_ and r_[0] == 'm' else None
+    n_s1 = 0
+    gp_funcs = [g_ for g_ in F.funcs.values() if g_.cls == 'libcellml::GeneratorProfile']
+    for st in gp_funcs:
+        if not st.name.startswith('set') or not st.name.endswith('String'):
+            continue
+        bools = [p_['n'] for p_ in st.params if p_['t'] == 'bool']
+        if not bools:
+            continue
+        gname = st.name[3].lower() + st.name[4:]
+        gt = [g_ for g_ in gp_funcs if g_.name == gname and [p_['t'] for p_ in g_.params] == ['bool'] * len(bools)]
+        if len(gt) != 1:
+            continue
+        gbools = [p_['n'] for p_ in gt[0].params]
+        for vals in _it20.product((False, True), repeat=len(bools)):
+            n_s1 += 1
+            ms = _sel_member(st, dict(zip(bools, vals)), 'set')
+            mg = _sel_member(gt[0], dict(zip(gbools, vals)), 'ret')
+            if ms is None or mg is None:
+                raise AnalysisBroken('C20.S1: cannot evaluate %s / %s for %s' % (st.name, gname, vals))
+            rep.check(ms == mg, 'C20.S1', '%s|%s' % (st.name, ','.join(str(v).lower() for v in vals)), st.where(), '%s(%s, s) writes %s, but %s(%s) returns %s' % (st.name, ', '.join(str(v).lower() for v in vals), ms, gname, ', '.join(str(v).lower() for v in vals), mg),
+                      'both use %s' % ms)
+    if n_s1 < 20:
+        raise AnalysisBroken('C20.S1: only %d (setter, selector values) combinations evaluated (40+ confirmed)' % n_s1)
+
+    # the generator keeps nothing from one AnalyserModel to the next (a memo of analysed variables keyed by Variable outlives a re-analysis with other external variables)
+    if not getattr(rep, 'nested', False):
+        import c12 as _c12_20
+        _c12_20.rule_h1(F, rep, 'C20.H1', [st for st in _c12_20.STATE if st[0] == 'Generator::GeneratorImpl'])
     _borrow_c17(F, rep)   # which models count as "has ODEs" decides whether the callback takes voi/states/rates: clause shared with C17
     rep.rule('C20.R1', 'isStateRateBased marks an equation as checked BEFORE it descends into the equation\'s dependencies (user-supplied dependencies of external variables can be cyclic: a depends on b, b on a)')
     isr = F.fn1('Analyser::AnalyserImpl::isStateRateBased')
